@@ -3,6 +3,7 @@
 Oracle: reference model per entity kind (conventions calibrated on the pinned tree, DESIGN 6/C18);
 a following table that uses the type must report the (qualified) type name verbatim.
 """
+import re
 from vf.gen import schema as S
 from vf.gen.render import finish_script, render
 from vf.run import entities, parse
@@ -15,14 +16,25 @@ RULE = ("cases = one entity declaration (CREATE TYPE AS ENUM/OBJECT/TABLE, CREAT
         "every name form (plain, qualified, delimited), enum lists of 1..12 values, 1..6 attributes/columns, alone or between "
         "tables; for types, followed by a table using the type at first/middle/last column with options. Exhaustive option "
         "products first, then seeded random. Non-trivial = every case (each compares a full entity); distinct = distinct DDL text.")
-ASSUMPTIONS = ["keywords are written in upper case (the property does not quantify over keyword case for these statements)",
+ASSUMPTIONS = ["keywords are written in upper case, except that tablespace / enum / database / domain declarations are also given in lower, capitalised and random keyword case (recognised case-insensitively on the pinned tree; the tablespace kind word and ENUM are reported as written); keyword case of the other declarations is not quantified by the property and leaks into their output on the pinned tree, so it is not varied",
                "a qualified schema name a.b is reported as project=a, schema_name=b (calibrated convention); AUTHORIZATION key looked up case-insensitively",
                "domain base types are one word with a size (two-word base types are not supported by the grammar and not named)"]
 MIN_EVENTS = {"statements": 50, "run_return": 50}
+RECASE_P = 0.35
+RECASE_KINDS = {"tablespace", "enum", "database", "domain"}
 
 ENUM_WORDS = ["'a'", "'b'", "'A'", "'new'", "'in progress'", "'done'", "'x-1'", "'N/A'", "'UPPER'", "'mixed Case'", "'z9'", "'_u'", "'q.r'", "'50%'"]
 NAMES = ["ty", "My_Type", "status_t", "T1", '"Ty"', '"my type"', "[ty2]", "`bt`"]
 SCHEMAS = [None, None, "s", "Sch", '"S"', "[dbo]"]
+# keyword-shaped type names (C06 enumerates every keyword at this position; here a few ride along with every type form)
+KW_NAMES = ["key", "comment", "tag", "options", "index", "default", "check", "Order", "TABLESPACE"]
+
+
+def pick_name(rng):
+    """(name, may a table use it as a column type?)"""
+    if rng.random() < 0.15:
+        return rng.choice(KW_NAMES), False
+    return rng.choice(NAMES), True
 
 
 def qname(schema, name):
@@ -30,14 +42,14 @@ def qname(schema, name):
 
 
 def gen_enum(rng, n=None):
-    schema, name = rng.choice(SCHEMAS), rng.choice(NAMES)
+    schema, (name, usable) = rng.choice(SCHEMAS), pick_name(rng)
     n = n or rng.randint(1, 12)
     vals = [rng.choice(ENUM_WORDS) for _ in range(n)]
     sep = rng.choice([", ", ",", " , "])
     head = rng.choice(["CREATE TYPE", "CREATE OR REPLACE TYPE"])
     ddl = "%s %s AS ENUM (%s);" % (head, qname(schema, name), sep.join(vals))
     exp = {"schema": schema, "type_name": name, "base_type": "ENUM", "properties": {"values": vals}}
-    return ddl, exp, None, (schema, name)
+    return ddl, exp, None, (schema, name) if usable else None
 
 
 def gen_attrs(rng, n):
@@ -48,7 +60,7 @@ def gen_attrs(rng, n):
 
 
 def gen_object(rng, n=None):
-    schema, name = rng.choice(SCHEMAS), rng.choice(NAMES)
+    schema, (name, usable) = rng.choice(SCHEMAS), pick_name(rng)
     cols = gen_attrs(rng, n or rng.randint(1, 6))
     body = ", ".join(render(S.column_tokens(c)) for c in cols)
     ddl = "CREATE TYPE %s AS OBJECT (%s);" % (qname(schema, name), body)
@@ -57,11 +69,11 @@ def gen_object(rng, n=None):
         ty, sz = S.type_expect(c["type"])
         attrs.append({"name": c["name"], "type": ty, "size": sz})
     exp = {"schema": schema, "type_name": name, "base_type": "OBJECT", "properties": {"attributes": attrs}}
-    return ddl, exp, None, (schema, name)
+    return ddl, exp, None, (schema, name) if usable else None
 
 
 def gen_table_type(rng, n=None):
-    schema, name = rng.choice(SCHEMAS), rng.choice(NAMES)
+    schema, (name, usable) = rng.choice(SCHEMAS), pick_name(rng)
     n = n or rng.randint(1, 6)
     cols = []
     has_pk = False
@@ -80,7 +92,7 @@ def gen_table_type(rng, n=None):
         e["primary_key"] = e.pop("_pk")
         ecols.append(e)
     exp = {"schema": schema, "type_name": name, "base_type": None, "properties": {"columns": ecols}}
-    return ddl, exp, None, (schema, name)
+    return ddl, exp, None, (schema, name) if usable else None
 
 
 def gen_domain(rng, variant=None):
@@ -170,9 +182,53 @@ def user_table(rng, tname, pos):
     return ddl, exp
 
 
+STATEMENT_KEYWORDS = {"CREATE", "OR", "REPLACE", "TYPE", "AS", "ENUM", "OBJECT", "TABLE", "DOMAIN", "SCHEMA", "IF", "NOT", "EXISTS", "AUTHORIZATION",
+                      "COMMENT", "DATABASE", "TABLESPACE", "BIGFILE", "SMALLFILE", "TEMPORARY", "NULL", "DEFAULT", "PRIMARY", "KEY", "UNIQUE"}
+
+
+def recase(ddl, rng, how=None):
+    """the same declaration with its SQL keywords in another letter case (identifiers, type names, values and everything inside
+    quotes / delimiters are left alone); SQL keywords are case-insensitive, so the entity must be the same"""
+    how = how or rng.choice(["lower", "capital", "random"])
+    out, i, n = [], 0, len(ddl)
+    closers = {"'": "'", '"': '"', "`": "`", "[": "]"}
+    while i < n:
+        ch = ddl[i]
+        if ch in closers:
+            j = ddl.find(closers[ch], i + 1)
+            j = n - 1 if j < 0 else j
+            out.append(ddl[i:j + 1])
+            i = j + 1
+            continue
+        m = re.match(r"[A-Za-z_][A-Za-z_0-9]*", ddl[i:])
+        if m:
+            w = m.group(0)
+            if w.upper() in STATEMENT_KEYWORDS and w.isupper() and (i == 0 or ddl[i - 1] != "."):
+                if how == "lower":
+                    w = w.lower()
+                elif how == "capital":
+                    w = w.capitalize()
+                else:
+                    w = "".join(c.lower() if rng.random() < 0.5 else c.upper() for c in w)
+            out.append(w)
+            i += len(m.group(0))
+            continue
+        out.append(ch)
+        i += 1
+    return "".join(out)
+
+
 def build_case(rng, ekind, gen, **kw):
     kind = ekind
     ddl, exp, kf, tname = GENS[kind](rng, **kw)
+    if kind in RECASE_KINDS and kf is None and rng.random() < RECASE_P:
+        # calibrated on the pinned tree: these declarations are recognised in any keyword case; two words are reported as written
+        ddl = recase(ddl, rng)
+        exp = dict(exp)
+        if kind == "tablespace" and exp.get("type"):
+            exp["type"] = ddl.split()[1]
+        if kind == "enum":
+            exp["base_type"] = re.search(r"\bAS\s+(ENUM)\b", ddl, re.I).group(1)
     stmts, plan = [], []
     if rng.random() < 0.4:
         nb = rng.choice(NEIGHBOURS) % 0
